@@ -79,6 +79,11 @@ impl Event {
                     event_name: event_name.to_string(),
                     ..Default::default()
                 };
+                // `expected_version`, `payload` and `metadata` have non-`Option` defaults, so
+                // whether they were already given is tracked separately.
+                let mut expected_version_seen = false;
+                let mut payload_seen = false;
+                let mut metadata_seen = false;
 
                 for arg in args {
                     match arg {
@@ -92,12 +97,13 @@ impl Event {
                             cmd.event_id = Some(event_id);
                         }
                         OptionalArg::ExpectedVersion(expected_version) => {
-                            if !matches!(cmd.expected_version, ExpectedVersion::Any) {
+                            if expected_version_seen {
                                 return Err(easy::Error::message_format(
                                     "expected version already specified",
                                 ));
                             }
 
+                            expected_version_seen = true;
                             cmd.expected_version = expected_version;
                         }
                         OptionalArg::Timestamp(timestamp) => {
@@ -110,21 +116,23 @@ impl Event {
                             cmd.timestamp = Some(timestamp);
                         }
                         OptionalArg::Payload(payload) => {
-                            if !cmd.payload.is_empty() {
+                            if payload_seen {
                                 return Err(easy::Error::message_format(
                                     "payload already specified",
                                 ));
                             }
 
+                            payload_seen = true;
                             cmd.payload = payload.to_vec();
                         }
                         OptionalArg::Metadata(metadata) => {
-                            if !cmd.metadata.is_empty() {
+                            if metadata_seen {
                                 return Err(easy::Error::message_format(
                                     "metadata already specified",
                                 ));
                             }
 
+                            metadata_seen = true;
                             cmd.metadata = metadata.to_vec();
                         }
                     }
